@@ -52,6 +52,9 @@ class CRegistry:
         kw["name"] = name
         self.relationals.append(kw)
 
+    def frame(self, name, **kw):
+        pass
+
 
 def load_registry():
     import importlib
